@@ -269,7 +269,10 @@ def extract_values(h, slot, logdir, prop_name, tag):
     gb, unwind = find_goto_binary(h, slot)
     if not gb:
         return None, "goto binary not found"
-    cmd = ["cbmc"] + CBMC_FLAGS + (["--unwind", str(unwind)] if unwind else []) + ["--trace", "--property", prop_name, gb]
+    more = []
+    if "--cbmc-args" in h.extra_args:
+        more = h.extra_args[h.extra_args.index("--cbmc-args") + 1:]
+    cmd = ["cbmc"] + CBMC_FLAGS + (["--unwind", str(unwind)] if unwind else []) + more + ["--trace", "--property", prop_name, gb]
     lf = os.path.join(logdir, f"{h.name}.trace.{tag}.log")
     rc, why, _peak = run_limited(cmd, os.path.dirname(gb), max(600, h.timeout_s), h.mem_gb * 2, lf)
     if why:
@@ -488,7 +491,8 @@ def run_property(prop, tier, harnesses, meta, jobs=None, pre=None):
     # respect memory: sum of caps of concurrently running harnesses <= mem_total
     max_mem = max([h.mem_gb for h in harnesses] or [4])
     jobs = max(1, min(jobs, int(mem_total_gb // max_mem), len(harnesses) or 1))
-    slots = list(range(jobs))
+    base = int(os.environ.get("VERIF_SLOT_BASE", "0") or 0)   # lets two checks run side by side with disjoint target dirs
+    slots = list(range(base, base + jobs))
     slot_lock = threading.Lock()
     results = []
 
